@@ -65,7 +65,7 @@ def holds (s : State) (t : Tid) : LockId → Prop
   | .tlock i => ∃ p, s.players[i]? = some p ∧ p.lk = some t
 
 def wantsMain : MPc → Option LockId
-  | .pAcq _ => some .mlock
+  | .pAcq _ _ => some .mlock
   | .cAcq _ i => some (.tlock i)
   | .kHAcq => some .hlock
   | .kMAcq => some .mlock
